@@ -24,6 +24,11 @@ type C18Script struct {
 	Reads   []parties.ReadOp `json:"reads,omitempty"` // readfrom/iocopy: outcome of each Read call
 	Default string           `json:"default_read,omitempty"`
 	Sink    parties.SinkPlan `json:"sink"`
+	// Again > 0: afterwards the SAME adapter is used once more, on a clean stream of Again
+	// packets read in Again2 style ("full" | "one") and for one clean Write: whatever the
+	// first call left behind (partial packet, error) must not leak into later calls
+	Again  int    `json:"again,omitempty"`
+	Again2 string `json:"again_style,omitempty"`
 }
 
 type c18 struct{}
@@ -42,7 +47,7 @@ func (c18) Info() core.Info {
 			"after an injected reader error the sink log may be any prefix covering at least the packets fully delivered before the failing Read; it must never contain a misaligned, duplicated or reordered packet",
 			"a sink that returns a short count without error is outside the statement: only integrity and order of what is delivered are checked after it",
 		},
-		RequiredProbes: []string{"frag_unaligned", "one_byte", "data_with_eof", "partial_tail", "sink_err_first", "sink_err_mid", "reader_err_mid_packet", "via_io_copy", "write_not_multiple", "write_multi_packet", "closer"},
+		RequiredProbes: []string{"frag_unaligned", "one_byte", "data_with_eof", "partial_tail", "sink_err_first", "sink_err_mid", "reader_err_mid_packet", "via_io_copy", "write_not_multiple", "write_multi_packet", "closer", "adapter_reused", "adapter_reused_after_partial_tail"},
 	}
 }
 
@@ -97,6 +102,10 @@ func (c18) Gen(r *core.Rand, tier string) interface{} {
 	}
 	if s.Adapter == "IOWriteCloser" && r.Chance(1, 4) {
 		s.Sink.CloseErr = true
+	}
+	if r.Chance(1, 3) {
+		s.Again = r.Pick(1, 2, 3)
+		s.Again2 = r.PickS("full", "one")
 	}
 	if s.Mode == "write" {
 		// cut the data into Write calls
@@ -427,6 +436,53 @@ func (c18) Exec(script interface{}, c *core.Ctx) {
 			}
 		}
 	}
+	if s.Again > 0 && !c.Failed() && !shortSeen() {
+		c.Probe("adapter_reused")
+		if s.Mode != "write" && s.Tail > 0 {
+			c.Probe("adapter_reused_after_partial_tail")
+		}
+		// a clean second stream through the same adapter
+		var src2 []packet.Packet
+		var data2 []byte
+		for i := 0; i < s.Again; i++ {
+			p := c18Packet(1000+i, s.Salt+1)
+			src2 = append(src2, p)
+			data2 = append(data2, p[:]...)
+		}
+		base := len(sink.Log)
+		sink.Plan.FailAt = -1
+		sr2 := parties.NewSimReader(data2, nil, c)
+		if s.Again2 == "one" {
+			sr2.DefaultKind = "one"
+		}
+		var n2 int64
+		var err2 error
+		if !c.Call("packetWriter.ReadFrom(again)", func() { n2, err2 = w.(io.ReaderFrom).ReadFrom(sr2) }) {
+			return
+		}
+		c.Log("again readfrom n=%d err=%v delivered=%d", n2, err2, len(sink.Log)-base)
+		if err2 != nil || n2 != int64(len(data2)) || len(sink.Log)-base != len(src2) {
+			c.Fail("each_call_independent", "second_readfrom_on_same_adapter_wrong", []interface{}{n2, err2, len(sink.Log) - base}, []interface{}{len(data2), nil, len(src2)})
+			return
+		}
+		for i := range src2 {
+			if sink.Log[base+i] != src2[i] {
+				c.Fail("each_call_independent", "second_readfrom_delivered_wrong_bytes", i, "the packet of the second stream")
+				return
+			}
+		}
+		base = len(sink.Log)
+		one := c18Packet(2000, s.Salt+2)
+		var n3 int
+		var err3 error
+		if !c.Call("packetWriter.Write(again)", func() { n3, err3 = w.Write(one[:]) }) {
+			return
+		}
+		if err3 != nil || n3 != 188 || len(sink.Log)-base != 1 || sink.Log[base] != one {
+			c.Fail("each_call_independent", "write_after_readfrom_on_same_adapter_wrong", []interface{}{n3, err3}, []interface{}{188, nil})
+			return
+		}
+	}
 	if closer != nil {
 		var cerr error
 		if !c.Call("packetWriter.Close", func() { cerr = closer.Close() }) {
@@ -554,6 +610,16 @@ func (c18) Shrink(script interface{}) []interface{} {
 		n := cp()
 		n.Default = ""
 		out = append(out, n)
+	}
+	if s.Again > 0 {
+		n := cp()
+		n.Again = 0
+		out = append(out, n)
+		if s.Again > 1 || s.Again2 != "full" {
+			n = cp()
+			n.Again, n.Again2 = 1, "full"
+			out = append(out, n)
+		}
 	}
 	for _, ops := range parties.ShrinkReadOps(s.Reads) {
 		n := cp()
